@@ -71,6 +71,20 @@ func c07GeneratedContig() []byte {
 	return []byte(gb.String())
 }
 
+// c07GeneratedBoth: a record that has a CONTIG line and an ORIGIN block.
+func c07GeneratedBoth() []byte {
+	gb := seqio.GenBank{
+		Fields: seqio.GenBankFields{LocusName: "BOTH1", Molecule: gts.DNA, Topology: gts.Linear, Division: "CON",
+			Date: seqio.Date{Year: 2003, Month: 4, Day: 5}, Definition: "contig and origin", Accession: "BOTH1", Version: "BOTH1.1",
+			Source: seqio.Organism{Species: "S", Name: "S", Taxon: []string{"A"}},
+			Contig: seqio.Contig{Accession: "XY1.1", Region: gts.Segment{0, 40}}},
+		Table: gts.FeatureSlice{{Key: "source", Loc: gts.Range(0, 40), Props: gts.Props{{"organism", "S"}}},
+			{Key: "gene", Loc: gts.Range(5, 25), Props: gts.Props{{"gene", "g"}}}},
+		Origin: seqio.NewOrigin([]byte("acgtacgtacgtacgtacgtacgtacgtacgtacgtacgt")),
+	}
+	return []byte(gb.String())
+}
+
 func c07GeneratedFasta() []byte {
 	return []byte(">r1 first\nACGTACGTAC\nGGGG\n>r2\n\n>r3 third one\nTTTT\n")
 }
@@ -93,9 +107,10 @@ func c07LoadSeeds() {
 		c07Seeds["gen-full"] = c07GeneratedFull()
 		c07Seeds["gen-contig"] = c07GeneratedContig()
 		c07Seeds["gen-fasta"] = c07GeneratedFasta()
+		c07Seeds["gen-both"] = c07GeneratedBoth()
 		two := append(append([]byte{}, c07Seeds["gen-full"]...), c07Seeds["gen-contig"]...)
 		c07Seeds["gen-two"] = append(two, c07Seeds["gen-full"]...)
-		c07Names = append(c07Names, "gen-full", "gen-contig", "gen-fasta", "gen-two")
+		c07Names = append(c07Names, "gen-full", "gen-contig", "gen-fasta", "gen-two", "gen-both")
 		// warm the process-global qualifier registries so that outcomes do not depend on scan history
 		for _, n := range c07Names {
 			c07Scan(c07Seeds[n], "full", 0)
